@@ -5,6 +5,18 @@ ROOT = os.path.dirname(os.path.dirname(os.path.abspath(__file__)))
 
 MC = "model_checking"; TV = "translation_validation"; EX = "exploration"
 CHECKS = {
+ "C02": (TV, "5/C02",
+  "Translation validation per generated C function: the exact text capi.gen_code/specialize_source produce is parsed (pycparser) and translated to z3 terms; for every catalogue type, data path and function (get/set/getp/len/typeid/member) the disequality between the C address/length/typeid term and (a) the documented-layout term and (b) the term obtained by symbolically executing the real Python readers on an ld-buffer is checked unsat for ALL indices and ALL header words at once under WF. sat = replayed by compiling the accessor with cffi and comparing with the Python accessors on a real object.",
+  "Catalogue of ~50 type expressions quick / +120 seeded random thorough (types are enumerated, not solved); S10/S11 C semantics; WF facts of DESIGN appendix A; A1, A2; Python reader raising on a path is counted and left to C06.",
+  "C-to-SMT translation (pycparser AST -> z3 Int terms over uninterpreted ld) + symbolic execution of Python readers; z3 unsat of term disequality; cffi differential replay"),
+ "C07": (TV, "5/C07",
+  "Same translation; obligations per function under WF(layout): every load/store lies inside the object (or reference target) it belongs to and is aligned relative to that object's start, every int64 sub-expression stays in range, setters perform exactly one store, last, at the documented element address, of the leaf's width and type, of the unconverted value parameter; distinct in-range index tuples address disjoint elements (non-linear integer arithmetic, all dims symbolic).",
+  "As C02; additionally A1 for multi-dimensional shapes counts a zero dimension as 1 (excludes shape (2^62,3,0)); sanitizer execution itself is outside the technique (replay is a differential run with byte-diff of the buffer).",
+  "C-to-SMT translation + z3 (NIA) obligations for in-bounds/alignment/overflow/single-store; cffi differential replay"),
+ "C15": (TV, "5/C15",
+  "The opencl, cuda and cpu_openmp specialisations (real headers + real specialize_source) are translated like cpu_serial and every function's return term, load/store addresses, widths, types and order are proved equal to the cpu_serial translation (z3; mostly decided by the simplifier as syntactic identity); AST-level qualifier discipline: in OpenCL every pointer type (casts, declarations, parameters, returns, opaque typedefs) carries the global qualifier, elsewhere none does; host gcc -fsyntax-only acceptance per target (auxiliary, concrete).",
+  "Catalogue as C02; __global mapped to a marker qualifier by the preprocessor; real device compilers out of reach.",
+  "C-to-SMT translation per target + z3 term equality; AST qualifier walk; host compiler syntax check (auxiliary)"),
  "C04": (MC, "5/C04",
   "Bounded symbolic model checking of the real allocator: XBuffer.allocate/free/grow/__init__ are executed on z3 integer proxies from an ARBITRARY free-list state satisfying the representation invariant (one inductive step, so histories of any length are covered as long as the invariant is inductive, which is itself checked), for every capacity, chunk bound, size, grow step; list length N and alignment enumerated. unsat = holds for all values within the bound, sat = concrete state replayed on a real BufferNumpy/BufferByteArray.",
   "Invariant I (DESIGN 5/C04); N<=3 quick / <=5 thorough; alignments 1..64 powers of two; <=3 growth rounds unwound; sizes < 2^62; storage primitives are recording stubs (their byte semantics is C13); L1 bit-vector lemma for x & -2^k.",
